@@ -123,6 +123,8 @@ def run(facts, rep, tier):
     rep.notes.append({"guards_live_across_await": info})
     publishver(F, rep, bodies)
     handlers(F, rep, bodies)
+    storefirst(F, rep, bodies)
+    whomaywrite(F, rep, bodies)
 
 
 def short(p):
@@ -289,3 +291,78 @@ def handlers(F, rep, bodies):
                             "did_close no longer removes the document from `documents` under the write guard: "
                             "hover/definition keep answering from a closed document", file=f.file, line=f.line,
                             fn=f.path))
+
+
+def storefirst(F, rep, bodies):
+    """On the success path the analysed state is stored BEFORE diagnostics are published: no suspension point
+    other than the lock acquisition separates the end of the analysis from the store."""
+    f = bodies.get(LSP + "IncanLanguageServer::analyze_document::{closure#0}")
+    if f is None:
+        return
+    chk = [bi for bi, t in f.calls() if (callee_name(t) or "").endswith("TypeChecker::check_with_imports")]
+    ins = [bi for bi, t in f.calls() if (callee_generic(t) or "").endswith("::insert") and
+           "HashMap" in (t["f"].get("self", "") + (callee_generic(t) or "")) and
+           "DocumentState" in t["f"].get("inst", "")]
+    pubs = [bi for bi, t in f.calls() if (callee_name(t) or "").endswith("Client::publish_diagnostics")]
+    if not (rep.anchor("STOREFIRST", "check_with_imports call", chk) and rep.anchor("STOREFIRST", "documents insert",
+                                                                                  ins)):
+        return
+    dom = f.dominators()
+    after = [p for p in pubs if chk[0] in dom.get(p, set())]
+    rep.floor("STOREFIRST", "publish_diagnostics calls after type checking", len(after), 1)
+    for p in after:
+        ok = any(i in dom.get(p, set()) for i in ins)
+        rep.oblige("STOREFIRST", "publish@line%s" % f.term(p).get("ln"), ok,
+                   sample={"rule": "STOREFIRST", "publish_line": f.term(p).get("ln"), "store_dominates": ok})
+        if not ok:
+            rep.add(Finding("STOREFIRST", "STOREFIRST|analyze_document|publish-before-store",
+                            "after a successful analysis, publish_diagnostics(..).await is reached before the result "
+                            "is stored: the handler can be suspended between `analysis finished` and `state stored`, "
+                            "so a didClose (or a newer change) handled in between is undone when this handler "
+                            "resumes and inserts its document", file=f.file, line=f.term(p).get("ln"), fn=f.path))
+    # count suspension points between the check and the store
+    yields = [bi for bi, b in enumerate(f.blocks) if b["term"]["t"] == "yield"]
+    between = [y for y in yields if chk[0] in dom.get(y, set()) and any(y in dom.get(i, set()) for i in ins)]
+    ok = len(between) <= 1
+    rep.oblige("STOREFIRST", "suspensions-between-analysis-and-store", ok,
+               sample={"rule": "STOREFIRST", "await_points_between_check_and_store": len(between)})
+    if not ok:
+        rep.add(Finding("STOREFIRST", "STOREFIRST|analyze_document|extra-await",
+                        "%d await points dominate the store after type checking (only the lock acquisition is "
+                        "expected)" % len(between), file=f.file, line=f.line, fn=f.path))
+
+
+def whomaywrite(F, rep, bodies):
+    """Only analyze_document (store) and did_close (remove) may take the write lock of `documents`; did_open and
+    did_change must hand every notification to the analysis."""
+    allowed = ("analyze_document", "did_close")
+    for p, f in sorted(bodies.items()):
+        if not f.coroutine:
+            continue
+        wg = guard_locals(f, "Write")
+        name = short(p)
+        ok = not wg or name in allowed
+        rep.oblige("WHOMAYWRITE", name, ok, sample={"rule": "WHOMAYWRITE", "handler": name,
+                                                    "takes_write_lock": bool(wg)})
+        if not ok:
+            rep.add(Finding("WHOMAYWRITE", "WHOMAYWRITE|%s" % name,
+                            "%s takes the write lock of `documents` itself: stored text/version can change without a "
+                            "matching analysis and publication (only analyze_document stores, only did_close removes)"
+                            % name, file=f.file, line=f.line, fn=p))
+    # did_change: on the `Some(change)` edge every path reaches analyze_document
+    f = next((g for p, g in bodies.items() if p.endswith("::did_change::{closure#0}")), None)
+    if f is not None:
+        from engines import discr_switches, postdominators
+        calls = [bi for bi, t in f.calls() if (callee_name(t) or "").endswith("analyze_document")]
+        sw = [s for s in discr_switches(f) if s["adt"].endswith("option::Option") and "Some" in s["explicit"]]
+        if calls and sw:
+            tgt = sw[0]["explicit"]["Some"]
+            reach = f.reachable(tgt, avoid=set(calls))
+            escapes = any(f.term(b)["t"] == "return" for b in reach)
+            rep.oblige("WHOMAYWRITE", "did_change:always-analyses", not escapes,
+                       sample={"rule": "WHOMAYWRITE", "did_change_can_return_without_analysis": escapes})
+            if escapes:
+                rep.add(Finding("WHOMAYWRITE", "WHOMAYWRITE|did_change|skips-analysis",
+                                "did_change can return for a received change without calling analyze_document: the "
+                                "diagnostics last published then belong to an older version than the latest one",
+                                file=f.file, line=f.line, fn=f.path))
